@@ -730,3 +730,4 @@ def run(ctx):
     ctx.run(d4_scatter)
     ctx.run(d5_meta_keys)
     ctx.run(d6_subset_string)
+    ctx.run(np2.window_state_rule, "D7")
